@@ -272,7 +272,8 @@ pub struct DecoderV2<'a> {
     pub string_decoder: StringDecoder<'a>,
 }
 
-/// OPAQUE stand-in for `StringDecoder` (str slicing / `chars()` / unsafe from_utf8_unchecked are not ingestible): `read_str`
+/// OPAQUE stand-in for `StringDecoder` (str slicing / `chars()` are not ingestible; `StringDecoder::new` validates its column with
+/// `std::str::from_utf8(..).map_err(|_| Error::UnexpectedValue)?` since /repo 6f5f4d8, before: unsafe from_utf8_unchecked): `read_str`
 /// is a trusted stand-in WITHOUT a functional contract — all that is used is that it cannot touch the decoder's cursor
 #[verifier::external_body] pub struct StringDecoder<'a> { opaque: &'a str }
 
